@@ -758,6 +758,10 @@ func (interp *Interpreter) cfg(root *node, sc *scope, importPath, pkgName string
 					err = n.cfgErrorf("cannot use _ as value")
 					break
 				}
+				if n.anc.kind == constDecl && !src.rval.IsValid() {
+					err = src.cfgErrorf("initializer of constant %s is not a constant", dest.ident)
+					break
+				}
 				if n.kind == defineStmt || (n.kind == assignStmt && dest.ident == "_") {
 					if atyp != nil {
 						dest.typ = atyp
